@@ -1042,7 +1042,7 @@ pub fn run(out: &mut dyn Write, prop: &str, seed: u64, thorough: bool) -> std::i
     match prop {
         "C01" => {
             let t = collects(&mut rng);
-            go(out, &mut rng, "collect", &base(t.clone()), n(1500, 20000))?;
+            go(out, &mut rng, "collect", &base(t.clone()), n(4000, 30000))?;
             // every branch of the collect dispatch (target kind x length known/unknown x map-only /
             // filtering) with interleaved workers: round-robin schedules under the scheduler
             for kinds in ["M", "MM", "F", "MF", "X", "P"] {
@@ -1085,7 +1085,7 @@ pub fn run(out: &mut dyn Write, prop: &str, seed: u64, thorough: bool) -> std::i
             }
             let mut o = base(t);
             o.ctl_share = 7;
-            go(out, &mut rng, "find", &o, n(1500, 20000))?;
+            go(out, &mut rng, "find", &o, n(4000, 30000))?;
             // large inputs and chunks, sparse predicates: a match deep inside an early chunk and
             // another one at the beginning of a later chunk, real threads
             for _ in 0..n(160, 1600) {
@@ -1130,7 +1130,7 @@ pub fn run(out: &mut dyn Write, prop: &str, seed: u64, thorough: bool) -> std::i
                 t.push(TermD::MinByKey(k));
                 t.push(TermD::MaxByKey(k));
             }
-            go(out, &mut rng, "reduce", &base(t.clone()), n(1500, 20000))?;
+            go(out, &mut rng, "reduce", &base(t.clone()), n(4000, 30000))?;
             let tl: Vec<TermD> = t.iter().filter(|x| is_core_terminal(x)).cloned().collect();
             for _ in 0..n(60, 600) {
                 let c = gen_large_case(&mut rng, &tl, &["", "M", "F", "MF", "P", "PF", "X", "XF"], false);
@@ -1144,7 +1144,7 @@ pub fn run(out: &mut dyn Write, prop: &str, seed: u64, thorough: bool) -> std::i
             }
         }
         "C04" => {
-            go(out, &mut rng, "count", &base(vec![TermD::Count, TermD::ForEach]), n(1500, 20000))?;
+            go(out, &mut rng, "count", &base(vec![TermD::Count, TermD::ForEach]), n(4000, 30000))?;
             for _ in 0..n(60, 600) {
                 let c = gen_large_case(&mut rng, &[TermD::Count, TermD::Count, TermD::ForEach], &["", "M", "F", "MF", "P", "PF", "X", "XF"], false);
                 emit_case(out, "large", &c, false)?;
@@ -1159,7 +1159,7 @@ pub fn run(out: &mut dyn Write, prop: &str, seed: u64, thorough: bool) -> std::i
         "C07" => {
             let mut o = base(vec![TermD::CollectX]);
             o.distinct_share = 3;
-            go(out, &mut rng, "collect_x", &o, n(1200, 15000))?;
+            go(out, &mut rng, "collect_x", &o, n(3000, 20000))?;
             for _ in 0..n(40, 400) {
                 let c = gen_large_case(&mut rng, &[TermD::CollectX], &["M", "F", "MF", "P", "PF", "X", "XF"], false);
                 emit_case(out, "large", &c, false)?;
@@ -1180,7 +1180,7 @@ pub fn run(out: &mut dyn Write, prop: &str, seed: u64, thorough: bool) -> std::i
             }
             let mut o = base(t);
             o.src_kinds = vec!['v', 'k', 'u', 'u'];
-            go(out, &mut rng, "calls", &o, n(1500, 20000))?;
+            go(out, &mut rng, "calls", &o, n(4000, 30000))?;
         }
         "C06" => {
             let mut t = vec![];
@@ -1194,7 +1194,7 @@ pub fn run(out: &mut dyn Write, prop: &str, seed: u64, thorough: bool) -> std::i
             }
             let mut o = base(t);
             o.src_kinds = vec!['v', 'k', 'u', 'u'];
-            go(out, &mut rng, "collect_into", &o, n(1800, 20000))?;
+            go(out, &mut rng, "collect_into", &o, n(4000, 30000))?;
         }
         "C08" => {
             let mut t = collects(&mut rng);
@@ -1205,7 +1205,7 @@ pub fn run(out: &mut dyn Write, prop: &str, seed: u64, thorough: bool) -> std::i
             }
             let o = base(t);
             // Max(n) on the source, nothing later
-            for _ in 0..n(1500, 20000) {
+            for _ in 0..n(4000, 30000) {
                 let mut c = gen_case(&mut rng, &o);
                 for s in c.sets.iter_mut() {
                     s.retain(|x| !matches!(x, SetD::NtUsize(_) | SetD::NtEnum(_)));
@@ -1239,7 +1239,7 @@ pub fn run(out: &mut dyn Write, prop: &str, seed: u64, thorough: bool) -> std::i
             }
             let mut o = base(t);
             o.force_seq = true;
-            go(out, &mut rng, "sequential", &o, n(2000, 25000))?;
+            go(out, &mut rng, "sequential", &o, n(4000, 30000))?;
         }
         "C11" => {
             let mut t = vec![TermD::CollectVec, TermD::Count, TermD::Reduce(RedD::Add), TermD::CollectX, TermD::ForEach];
@@ -1248,7 +1248,7 @@ pub fn run(out: &mut dyn Write, prop: &str, seed: u64, thorough: bool) -> std::i
             o.allow_eager = false;
             o.ctl_share = 7;
             o.distinct_share = 10;
-            for _ in 0..n(1500, 20000) {
+            for _ in 0..n(4000, 30000) {
                 let mut c = gen_case(&mut rng, &o);
                 for s in c.sets.iter_mut() {
                     s.retain(|x| !matches!(x, SetD::CsUsize(_) | SetD::CsEnum(_)));
@@ -1422,7 +1422,7 @@ pub fn run(out: &mut dyn Write, prop: &str, seed: u64, thorough: bool) -> std::i
             let mut o = base(t.clone());
             o.ctl_share = 8;
             o.allow_eager = false;
-            for i in 0..n(2000, 25000) {
+            for i in 0..n(4000, 30000) {
                 let mut c = gen_case(&mut rng, &o);
                 // a third: sequential mode (lazy prefix); a sixth: unbounded sources
                 if i % 3 == 0 {
@@ -1467,7 +1467,7 @@ pub fn run(out: &mut dyn Write, prop: &str, seed: u64, thorough: bool) -> std::i
                 let p = gen_pred(&mut rng);
                 t.extend([TermD::Find(p), TermD::Find(p), TermD::Any(p)]);
             }
-            for _ in 0..n(1500, 20000) {
+            for _ in 0..n(4000, 30000) {
                 let term = rng.pick(&t).clone();
                 let full_needed = !is_core_terminal(&term);
                 let cands: Vec<&&str> = crate::chains::CANARY_CHAINS.iter().filter(|c| !full_needed || c.len() <= 1).collect();
@@ -1492,7 +1492,15 @@ pub fn run(out: &mut dyn Write, prop: &str, seed: u64, thorough: bool) -> std::i
                 if with_panic {
                     // panic at an invocation the sequential evaluation reaches
                     let ex = expect(&c);
-                    let cand: Vec<(u32, u64)> = ex.log.iter().copied().filter(|e| (e.0 as usize) < c.ops.len() || e.0 == ST_FOR_EACH || e.0 == ST_PRED).collect();
+                    let mut cand: Vec<(u32, u64)> = ex.log.iter().copied().filter(|e| (e.0 as usize) < c.ops.len() || e.0 == ST_FOR_EACH || e.0 == ST_PRED).collect();
+                    if c.term.is_find_family() && rng.chance(1, 3) {
+                        // an invocation beyond the first match: a parallel run may or may not reach it;
+                        // or (arg + 1) an invocation nobody performs
+                        cand = seq_eval(&c.input, &c.ops, &mut |y, log| { log.push((ST_PRED, y)); true });
+                        if rng.chance(1, 4) {
+                            cand = cand.iter().map(|e| (e.0, e.1 + 1)).collect();
+                        }
+                    }
                     if cand.is_empty() {
                         continue;
                     }
